@@ -287,6 +287,9 @@ class Engine:
         if isinstance(val, Exc):
             v = smt.fresh('exc', V)
             return v
+        from .externals import Recorder
+        if isinstance(val, Recorder):
+            return z3.Const('api:' + val.path, V)
         raise Unsupported('cannot box %r' % (val,))
 
     def to_i(self, ctx, val):
@@ -329,6 +332,9 @@ class Engine:
             return z3.Not(sv.is_empty())
         if isinstance(val, (Fn, Obj, ClassV, ModuleV, Exc)):
             return z3.BoolVal(True)
+        from .externals import Recorder
+        if isinstance(val, Recorder):
+            return smt.truthy(z3.Const('api:' + val.path, V))
         raise Unsupported('truth of %r' % (val,))
 
     def is_none(self, ctx, val):
@@ -937,6 +943,11 @@ class Engine:
                         else:
                             yield self.raise_(c3, 'IndexError')
             return
+        from .externals import Recorder
+        if isinstance(base, Recorder):
+            ctx.notes.append(('apigetitem', base.path, key))
+            yield ctx, Recorder(base.path + '[]')
+            return
         r = self.ext.getitem(self, ctx, base, key)
         if r is None:
             raise Unsupported('subscript of %r' % (base,))
@@ -1134,6 +1145,13 @@ class Engine:
                 return
         if isinstance(f, ClassV):
             yield from self.ext.construct(self, ctx, f, args, kwargs)
+            return
+        from .externals import Recorder
+        if isinstance(f, Recorder):
+            k = sum(1 for n in ctx.notes if n[0] == 'api')
+            r = Recorder('%s()#%d' % (f.path, k))
+            ctx.notes.append(('api', f.path, args, dict(kwargs), r))
+            yield ctx, r
             return
         if isinstance(f, S) and f.sort == 'V':
             yield from self.ext.call_opaque(self, ctx, f, args, kwargs)
@@ -1501,6 +1519,11 @@ class Engine:
             ctx.heap[base.id].data[attr] = v
             yield ctx, None
             return
+        from .externals import Recorder
+        if isinstance(base, Recorder):
+            ctx.notes.append(('apiset', base.path + '.' + attr, v))
+            yield ctx, None
+            return
         if isinstance(base, Ref):
             ty = self.ref_type(base)
             if isinstance(ty, RecT) and attr in ty.fields:
@@ -1569,6 +1592,11 @@ class Engine:
                     h.data = sv.with_child(('k', k), self.sv_of(ctx, v, sv.ty.val))
                     yield ctx, None
                     return
+        from .externals import Recorder
+        if isinstance(cont, Recorder):
+            ctx.notes.append(('apisetitem', cont.path, key, v))
+            yield ctx, None
+            return
         r = self.ext.setitem(self, ctx, cont, key, v)
         if r is None:
             raise Unsupported('item assignment on %r' % (cont,))
@@ -1631,6 +1659,13 @@ class Engine:
                     hh.data = hh.data.without(k)
                     yield c, None
                 return
+        from .externals import Recorder
+        if isinstance(cont, Recorder):
+            ctx.notes.append(('apidelitem', cont.path, key))
+            c2 = ctx.fork()
+            yield ctx, None
+            yield c2, Raised(Exc('KeyError'))
+            return
         r = self.ext.delitem(self, ctx, cont, key)
         if r is None:
             raise Unsupported('del item of %r' % (cont,))
